@@ -11,8 +11,10 @@ sys.path.insert(0, os.path.join(HERE, "props"))
 ids = [json.loads(l)["id"] for l in open(os.path.join(HERE, "properties.jsonl"))]
 checks = []
 claimed = set()
+# a property is claimed only once its check has been seen to pass on the unchanged tree (props/claimed.txt)
+ready = set(open(os.path.join(HERE, "props", "claimed.txt")).read().split())
 for pid in ids:
-    if not os.path.exists(os.path.join(HERE, "props", pid + ".py")):
+    if pid not in ready or not os.path.exists(os.path.join(HERE, "props", pid + ".py")):
         continue
     m = importlib.import_module(pid)
     M = m.MANIFEST
